@@ -157,10 +157,14 @@ let jqval = function
   | Ret (VBool b) -> "{\"bool\":" ^ (if b then "true" else "false") ^ "}"
   | Ret (VNat n) -> "{\"nat\":" ^ jnat n ^ "}"
   | Raise e -> jstr (exn_name e)
+(* (noop): something is done to ANOTHER object (a copy / reindexed copy of this one), or this object is replaced by its copy, or an
+   attribute is read: for the model nothing happens to the state *)
+let op_of_opt = function L [A "noop"] -> None | x -> Some (op_of x)
 let run_ops stepf readf s0 ops =
   let rec go s = function
     | [] -> []
-    | o :: r ->
+    | None :: r -> ("{\"out\":\"ok\",\"st\":" ^ jstate s ^ "}") :: go s r
+    | Some o :: r ->
         let (s', out) = stepf o s in
         let ret = match o with Query q -> ",\"ret\":" ^ jqval (snd (readf q s)) | _ -> "" in
         ("{\"out\":" ^ jout out ^ ret ^ ",\"st\":" ^ jstate s' ^ "}") :: go s' r
@@ -175,14 +179,14 @@ let handle line =
   match parse (tokenize line) with
   | L [A "vc"; sp; st; ops] ->
       let s0 = init_vc (List.map z_of_sx (list_of sp)) (int_of_sx st <> 0) in
-      "{\"init\":\"ok\",\"st0\":" ^ jstate s0 ^ ",\"steps\":[" ^ String.concat "," (run_ops np_step read s0 (List.map op_of (list_of ops))) ^ "]}"
+      "{\"init\":\"ok\",\"st0\":" ^ jstate s0 ^ ",\"steps\":[" ^ String.concat "," (run_ops np_step read s0 (List.map op_of_opt (list_of ops))) ^ "]}"
   | L [A (("model" | "linker") as k); extra; sp; st; d; dflt; nms; ivs; ops] ->
       let dr = match dreq_of d with Some x -> x | None -> failwith "dreq" in
       let (s0, out) = np_init_model (kind_of k (int_of_sx extra)) (List.map z_of_sx (list_of sp)) (int_of_sx st <> 0) dr
           (operand_of dflt) (names_of nms) (ivs_of ivs) in
       (match out with
        | Raise _ -> "{\"init\":" ^ jout out ^ ",\"steps\":[]}"
-       | Ret _ -> "{\"init\":\"ok\",\"st0\":" ^ jstate s0 ^ ",\"steps\":[" ^ String.concat "," (run_ops np_step read s0 (List.map op_of (list_of ops))) ^ "]}")
+       | Ret _ -> "{\"init\":\"ok\",\"st0\":" ^ jstate s0 ^ ",\"steps\":[" ^ String.concat "," (run_ops np_step read s0 (List.map op_of_opt (list_of ops))) ^ "]}")
   | L [A "alias"; A k; extra; al; pref; sp; st; d; dflt; nms; ivs; ops; reads] ->
       (* AliasMixin over a model / linker: constructor, ops through aliases, renamed export *)
       let dr = match dreq_of d with Some x -> x | None -> failwith "dreq" in
@@ -195,9 +199,9 @@ let handle line =
            (match out with
             | Raise _ -> "{\"init\":" ^ jout out ^ "," ^ amj ^ ",\"steps\":[]}"
             | Ret _ ->
-                let opl = List.map op_of (list_of ops) in
+                let opl = List.map op_of_opt (list_of ops) in
                 let steps = run_ops (alias_step am) (alias_read am) s0 opl in
-                let sfin = List.fold_left (fun s o -> fst (alias_step am o s)) s0 opl in
+                let sfin = List.fold_left (fun s o -> match o with None -> s | Some o -> fst (alias_step am o s)) s0 opl in
                 let ren = match export am sfin with
                   | Ret l -> jlist (fun (t, src) -> "[" ^ jname t ^ "," ^ jname src ^ "]") l | Raise e -> jstr (exn_name e) in
                 let jres = function Ret cells -> "{\"ok\":" ^ jlist jcell cells ^ "}" | Raise e -> jstr (exn_name e) in
@@ -377,6 +381,8 @@ def enc_op(op, hint=None):
     if t == 'query':
         q = op[1]
         return '(query (contains %s))' % xname(q[1]) if isinstance(q, list) else '(query %s)' % q
+    if t in CROSS_OPS:
+        return '(noop)'
     raise ValueError(op)
 
 
@@ -711,6 +717,50 @@ def values_set_readback(obj, declared, operand):
             return None
 
 
+# history steps that involve a second instance or a read; for the object under test they must be no-ops
+#   ['fork', how, op]   sibling = copy of the object (how: copy | deepcopy | reindex onto the same span); `op` is applied to the sibling
+#   ['sib', op]         `op` is applied to the current sibling (if there is one)
+#   ['become', how]     the object under test is replaced by its copy; the old object becomes the sibling
+#   ['getattr', name]   the attribute is read (and the result dropped)
+CROSS_OPS = ('fork', 'sib', 'become', 'getattr')
+
+
+def fork_object(obj, how, span):
+    import copy as _copy
+    if how == 'copy':
+        return obj.copy()
+    if how == 'deepcopy':
+        return _copy.deepcopy(obj)
+    if len(set(span)) != len(span):
+        return obj.copy()              # reindex() looks labels up by first occurrence: with a repeated label it is no copy
+    return obj.reindex(list(span))
+
+
+def cross_step(obj, sib, op, span, apply=None):
+    """One CROSS_OPS step on the real objects -> (obj, sib, info)."""
+    apply = apply or apply_op
+    info = {}
+    try:
+        if op[0] == 'fork':
+            sib = fork_object(obj, op[1], span)
+            info['inner'] = apply(sib, op[2])[0]
+        elif op[0] == 'sib':
+            if sib is not None:
+                info['inner'] = apply(sib, op[1])[0]
+        elif op[0] == 'become':
+            new = fork_object(obj, op[1], span)
+            sib, obj = obj, new
+        else:
+            v = getattr(obj, op[1])
+            info['read'] = [canon_cell(x) for x in v.ravel().tolist()] if hasattr(v, 'ravel') else type(v).__name__
+        info['cross'] = 'ok'
+    except BaseException as e:             # noqa: BLE001 - the class is the observation
+        if isinstance(e, (KeyboardInterrupt, SystemExit, MemoryError)) or str(e).startswith('unknown op'):
+            raise
+        info['cross'] = type(e).__name__
+    return obj, sib, info
+
+
 def impl_run(case):
     """Run a whole case on the real fsic: observation after construction and after every op."""
     obj, out = construct(case)
@@ -718,7 +768,12 @@ def impl_run(case):
         return {'init': out, 'steps': []}
     declared = [] if case['kind'] == 'vc' else list(case['names'])
     res = {'init': 'ok', 'st0': observe(obj, declared), 'steps': []}
+    sib = None
     for op in case['ops']:
+        if op[0] in CROSS_OPS:
+            obj, sib, info = cross_step(obj, sib, op, case['span'])
+            res['steps'].append({'out': 'ok', 'st': observe(obj, declared), 'hint': None, 'aux': info})
+            continue
         hint = None
         if op[0] == 'setattr':
             hint = closest_hint(obj, obj.__dict__.get('aliases', {}).get(op[1], op[1]))
